@@ -7,7 +7,8 @@ SD=$(realpath "$1"); shift
 export GOFLAGS=-mod=mod GOPROXY=off
 WT=/tmp/wt/seedtest-$$
 git -C /repo worktree add -q --detach "$WT" "${SEED_BASE:-HEAD}" || exit 2
-trap 'git -C /repo worktree remove --force "$WT"; rm -rf /verif/bin/alt-*' EXIT
+ALT=/verif/bin/alt-$(echo "$WT" | md5sum | cut -c1-10)
+trap 'git -C /repo worktree remove --force "$WT"; rm -rf "$ALT"' EXIT
 echo "== demo on unchanged tree"
 bash "$SD/demo/run.sh" "$WT" >/tmp/seedtest-clean.log 2>&1; echo "   exit=$? (want 0)"
 ( cd "$WT" && git apply "$SD/patch.diff" ) || { echo "PATCH DOES NOT APPLY"; exit 2; }
